@@ -80,9 +80,11 @@ class UpgradedAnnotation(metaclass=abc.ABCMeta):
         return _PreEvaluatedAnnotation(value)
 
     def __eq__(self, other):
+        if self is other:
+            return True
         if isinstance(other, UpgradedAnnotation):
             try:
-                return self.source_value() == other.source_value()
+                return bool(self.source_value() == other.source_value())
             except Exception:
                 # a postponed annotation that cannot be evaluated (eg. a
                 # name only imported for type checking): same text in the
@@ -228,6 +230,8 @@ class UpgradedSignature(_util.funcsigs.Signature):
         )
 
     def __eq__(self, other):
+        if self is other:
+            return True
         plain_eq = super().__eq__(other)
         if plain_eq is not True:
             return plain_eq
@@ -312,6 +316,8 @@ class UpgradedParameter(_util.funcsigs.Parameter):
         return self.replace(annotation=self.upgraded_annotation.source_value())
 
     def __eq__(self, other):
+        if self is other:
+            return True
         plain_eq = super().__eq__(other)
         if plain_eq is not True:
             return plain_eq
